@@ -11,6 +11,7 @@ For each of the 26 classes one definition `<Class>.ctor … : Except Err (PyGrid
   `weights = _derg2(grid.points) * grid.weights`, …) -> `List.map` / `List.zipWith` of the element-wise expression
 * `grid = <Class>(npoints)` / `grid = quadrature(npoints)` -> `(<Class>.ctor npoints).bind fun grid => …`
 * the `if d == 1: … elif d == 5: … else: raise` chain -> an `if` chain producing the pair `(points, weights)` or the error
+* `if <test>: weights *= …` (conditional update of an array, no else) -> `let weights := if <test> then … else weights`
 * for the classes whose arrays are carried entry by entry (`Gen/OneDFormulas.lean`: six closed-form rules, Clenshaw-Curtis,
   Fejer 1/2) or as node / weight functions of the index value (seven substitution rules) the array statements are owned by
   `onedgrid.py` (which raises on anything it cannot carry); here the lists are assembled from those entries
@@ -341,6 +342,24 @@ def ctor(tree, src, cls, ext_classes):
             L.append(_comment(st))
             L.append(f"  let {name} : List K := {B.listexpr(st.value)}")
             B.arrays[name] = name
+            continue
+        if (isinstance(st, ast.If) and not st.orelse and st.body and all(
+                (isinstance(b, ast.AugAssign) and isinstance(b.target, ast.Name) and b.target.id in B.arrays)
+                or (og._single_target(b) in B.arrays) for b in st.body)):
+            # conditional update of arrays:  if <test>: weights *= expr   ->   let weights := if <test> then … else weights
+            c = B.cond(st.test)
+            L.append(_comment(st))
+            for b in st.body:
+                if isinstance(b, ast.AugAssign):
+                    if type(b.op) not in (ast.Mult, ast.Div, ast.Add, ast.Sub):
+                        raise Untranslatable(f"{cls}: augmented operator (line {b.lineno})")
+                    e = ast.BinOp(left=ast.Name(id=b.target.id, ctx=ast.Load()), op=b.op, right=b.value)
+                    ast.copy_location(e, b)
+                    ast.fix_missing_locations(e)
+                    nm = b.target.id
+                else:
+                    e, nm = b.value, og._single_target(b)
+                L.append(f"  let {nm} : List K := if {c} then {B.listexpr(e)} else {nm}")
             continue
         if isinstance(st, ast.If):
             # if / elif / else chain: every branch assigns the same array names or raises
